@@ -64,19 +64,19 @@ fn g_arr_fi(sc: &mut Scratch) -> Option<Mini> {
 }
 /// object {"a": int, "b": bool}
 fn g_obj(sc: &mut Scratch) -> Option<Mini> {
-    sc.members[0] = (String::from("a"), Mini::Int(kani::any()));
-    sc.members[1] = (String::from("b"), Mini::Bool(kani::any()));
+    sc.set(0, "a", Mini::Int(kani::any()));
+    sc.set(1, "b", Mini::Bool(kani::any()));
     Some(sc.obj(2))
 }
 /// object {"b": bool, "a": int} (same members, other document order)
 fn g_obj_ba(sc: &mut Scratch) -> Option<Mini> {
-    sc.members[0] = (String::from("b"), Mini::Bool(kani::any()));
-    sc.members[1] = (String::from("a"), Mini::Int(kani::any()));
+    sc.set(0, "b", Mini::Bool(kani::any()));
+    sc.set(1, "a", Mini::Int(kani::any()));
     Some(sc.obj(2))
 }
 /// object {"a": int}
 fn g_obj1(sc: &mut Scratch) -> Option<Mini> {
-    sc.members[0] = (String::from("a"), Mini::Int(kani::any()));
+    sc.set(0, "a", Mini::Int(kani::any()));
     Some(sc.obj(1))
 }
 
@@ -168,3 +168,34 @@ c04_pair!(c04_obj_obj_ba, g_obj, g_obj_ba, 4, true, true);
 c04_pair!(c04_obj_obj1, g_obj, g_obj1, 4);
 // role D: arrays that mix integer and float spellings of numbers (finding F7)
 c04_pair!(c04_roled_arr_if_fi, g_arr_if, g_arr_fi, 4, true, true);
+
+// ---------------------------------------------------------------------------
+// C13: integer and float spellings of one number (100, 1e2, 100.0) compare alike.
+// The literal n (I-JSON integer, exactly representable) as Int and as Float
+// against any node of the given kind, for == and < in both orders.
+macro_rules! c13_num_spelling {
+    ($name:ident, $g:ident, $unwind:expr) => {
+        proof!($name, $unwind, {
+            let root = Mini::Null;
+            let n = any_ijson();
+            let li = Some(Mini::Int(n));
+            let lf = Some(Mini::Float(n as f64));
+            let mut sx = Scratch::new();
+            let x = $g(&mut sx);
+            let e_i = eq(operand(&root, &li, true), operand(&root, &x, false));
+            let e_f = eq(operand(&root, &lf, true), operand(&root, &x, false));
+            let l_i = lt(operand(&root, &li, true), operand(&root, &x, false));
+            let l_f = lt(operand(&root, &lf, true), operand(&root, &x, false));
+            let g_i = lt(operand(&root, &x, false), operand(&root, &li, true));
+            let g_f = lt(operand(&root, &x, false), operand(&root, &lf, true));
+            assert!(e_i == e_f, "int and float spelling of one number must be == to the same nodes");
+            assert!(l_i == l_f, "int and float spelling of one number must be < the same nodes");
+            assert!(g_i == g_f, "int and float spelling of one number must be > the same nodes");
+            kani::cover!(e_i, "equal");
+            kani::cover!(l_i, "less");
+            forget(sx);
+        });
+    };
+}
+c13_num_spelling!(c13_num_spelling_vs_int, g_iint, 3);
+c13_num_spelling!(c13_num_spelling_vs_float, g_float, 3);
